@@ -149,6 +149,8 @@ func runCone(w *World, cs *Contracts, cone *Cone, tier string, seed int, outDir 
 		obls []*Obligation
 	}
 	var jobs []job
+	type coverJob struct{ fn, bg string }
+	var covers []coverJob
 	for _, n := range w.sortedFuncNames() {
 		if !matchAny(cone.Funcs, n) || matchAny(cone.Exclude, n) {
 			continue
@@ -177,15 +179,32 @@ func runCone(w *World, cs *Contracts, cone *Cone, tier string, seed int, outDir 
 			}
 		}
 		jobs = append(jobs, job{bg, obls})
-		// vacuity guard: the function's preconditions must be satisfiable
-		if e.ct != nil && len(e.ct.Requires) > 0 {
-			cover := &Obligation{Name: n + "#cover:requires", Func: n, Class: "cover", Goal: "false"}
-			run.bgOf[cover] = bg
-			r := solveOne(outDir, bg, cover, "quick", 5, seed)
-			if r.Status == "unsat" {
-				run.vacuity = append(run.vacuity, n+": requires are contradictory")
-			}
+		// vacuity guard (every tier): everything assumed while encoding the function (preconditions, callee
+		// postconditions, loop invariants, external models) must be jointly satisfiable
+		if len(obls) > 0 {
+			covers = append(covers, coverJob{n, bg})
 		}
+	}
+	{
+		var wg sync.WaitGroup
+		var mu sync.Mutex
+		sem0 := make(chan struct{}, 16)
+		for _, cj := range covers {
+			wg.Add(1)
+			go func(cj coverJob) {
+				defer wg.Done()
+				sem0 <- struct{}{}
+				defer func() { <-sem0 }()
+				cover := &Obligation{Name: cj.fn + "#cover:background", Func: cj.fn, Class: "cover", Goal: "false"}
+				r := solveOne(outDir, cj.bg, cover, "quick", 5, seed)
+				if r.Status == "unsat" {
+					mu.Lock()
+					run.vacuity = append(run.vacuity, cj.fn+": the assumptions made while encoding this function are contradictory")
+					mu.Unlock()
+				}
+			}(cj)
+		}
+		wg.Wait()
 	}
 	// solve everything in one parallel pool
 	var all []*Obligation
